@@ -14,9 +14,10 @@ def ConstsOk : Prop :=
   Gen.colorLimit ≤ 100 ∧ Gen.colorBase = 10 ∧
   Gen.maxLine = 512 ∧ Gen.tabFactor = 8 ∧
   Gen.digitChars = ['0', '1', '2', '3', '4', '5', '6', '7', '8', '9'] ∧
-  Gen.probeTemplate = ":%s %s %s :%s\r\n".toList ∧ Gen.probePayload = ['.'] ∧
-  Gen.countTemplate = "(%i %s)".toList ∧ Gen.joinTemplate = "%s %s".toList ∧
-  Gen.nickPrefixTemplate = "%s: %s".toList
+  Gen.probeTemplate = [':', '%', 's', ' ', '%', 's', ' ', '%', 's', ' ', ':', '%', 's', '\r', '\n'] ∧
+  Gen.probePayload = ['.'] ∧
+  Gen.countTemplate = ['(', '%', 'i', ' ', '%', 's', ')'] ∧ Gen.joinTemplate = ['%', 's', ' ', '%', 's'] ∧
+  Gen.nickPrefixTemplate = ['%', 's', ':', ' ', '%', 's']
 
 instance : Decidable ConstsOk := by unfold ConstsOk; exact inferInstance
 
